@@ -87,14 +87,23 @@ type shadowCell struct {
 
 // Race is an unordered pair of conflicting accesses.
 type Race struct {
-	A, B string // "name@site (R|W)"
-	Sig  string
+	A, B  string // "name@site (R|W)"
+	Sig   string
+	Names [2]string // the names of the two locations accessed
 }
 
 func (e *Exec) access(addr uintptr, name string, write bool, obj any) {
 	t := e.running
 	if t == nil || e.NoHB {
 		return
+	}
+	if e.yieldAt != nil && e.yieldAt[name] {
+		// race-directed exploration: this location was found in a data race, so its accesses are
+		// scheduling points in this execution (the point lies before the access)
+		yield(&Op{Kind: "access:" + name})
+		if e.aborting {
+			return
+		}
 	}
 	if e.shadow == nil {
 		e.shadow = map[uintptr]*shadowCell{}
@@ -154,6 +163,7 @@ func (e *Exec) race(a, b access) {
 		A:   fmt.Sprintf("%s@%s (%s) by T%d", a.name, a.site, rw(a.write), a.tid),
 		B:   fmt.Sprintf("%s@%s (%s) by T%d", b.name, b.site, rw(b.write), b.tid),
 		Sig: sig,
+		Names: [2]string{a.name, b.name},
 	})
 }
 
